@@ -9,3 +9,11 @@ package pp
 //@ func pp.buildQNode
 //@   property C19
 //@   on-call newList quoted-stays-data: $arg2
+
+// C19: the text of a saved form does not depend on the print settings of the
+// session that saves it: the pretty printer starts from fixed settings (decimal,
+// no radix, full precision, nothing elided, readable) and only takes what the
+// scope binds on top of that.
+//@ func pp.Append
+//@   property C19
+//@   on-call ScopedUpdate starts-from-fixed-settings: p.Base == 10 && !p.Radix && p.Prec == 0 - 1 && p.Readably && p.Escape && p.Array && p.Length == 9223372036854775807 && p.Level == 9223372036854775807 && p.Lines == 9223372036854775807
